@@ -126,8 +126,10 @@ static void _core_fini(void) {
 	core_types = 0;
 }
 static void _core_init(void) {
-	core_types = calloc(sizeof(*core_types), MPT_ENUM(_TypeCoreSize));
 	size_t i;
+	if (!(core_types = calloc(sizeof(*core_types), MPT_ENUM(_TypeCoreSize)))) {
+		return;
+	}
 	for (i = 0; i < MPT_arrsize(core_sizes); i++) {
 		int pos = core_sizes[i].type;
 		*((size_t *) &core_types[pos].size) = core_sizes[i].size;
@@ -140,8 +142,10 @@ static void _scalar_fini(void) {
 	scalar_types = 0;
 }
 static void _scalar_init(void) {
-	scalar_types = calloc(sizeof(*scalar_types), MPT_ENUM(_TypeScalarSize));
 	size_t i;
+	if (!(scalar_types = calloc(sizeof(*scalar_types), MPT_ENUM(_TypeScalarSize)))) {
+		return;
+	}
 	for (i = 0; i < MPT_arrsize(scalar_sizes); i++) {
 		int pos = scalar_sizes[i].type - MPT_ENUM(_TypeScalarBase);
 		*((size_t *) &scalar_types[pos].size) = scalar_sizes[i].size;
@@ -154,8 +158,10 @@ static void _iovec_fini(void) {
 	iovec_types = 0;
 }
 static void _iovec_init(void) {
-	iovec_types = calloc(sizeof(*iovec_types), MPT_ENUM(_TypeVectorSize));
 	size_t i;
+	if (!(iovec_types = calloc(sizeof(*iovec_types), MPT_ENUM(_TypeVectorSize)))) {
+		return;
+	}
 	for (i = 0; i < MPT_arrsize(scalar_sizes); i++) {
 		int pos = scalar_sizes[i].type - MPT_ENUM(_TypeScalarBase);
 		*((size_t *) &iovec_types[pos].size) = sizeof(struct iovec);
@@ -223,22 +229,29 @@ static void _interfaces_fini(void) {
 	interface_pos = 0;
 }
 static void _interfaces_init(void) {
+	MPT_STRUCT(named_traits) **types;
 	size_t i;
-	if (!(interface_types = calloc(TypeInterfaceSize, sizeof(*interface_types)))) {
+	/* table is published complete or not at all */
+	if (!(types = calloc(TypeInterfaceSize, sizeof(*types)))) {
 		return;
 	}
 	for (i = 0; i < MPT_arrsize(core_interfaces); i++) {
-		MPT_STRUCT(named_traits) *elem = interface_types[i];
+		MPT_STRUCT(named_traits) *elem;
 		
-		if (elem || !(elem = malloc(sizeof(*elem) + sizeof(pointer_traits)))) {
-			continue;
+		if (!(elem = malloc(sizeof(*elem) + sizeof(pointer_traits)))) {
+			while (i--) {
+				free(types[i]);
+			}
+			free(types);
+			return;
 		}
 		*((const void **) &elem->traits) = memcpy(elem + 1, &pointer_traits, sizeof(pointer_traits));
 		*((const char **) &elem->name) = core_interfaces[i].name;
 		*((MPT_TYPE(type) *) &elem->type) = core_interfaces[i].type;
 		
-		interface_types[i] = elem;
+		types[i] = elem;
 	}
+	interface_types = types;
 	interface_pos = MPT_ENUM(_TypeInterfaceAdd) - MPT_ENUM(_TypeInterfaceBase);
 	
 	atexit(_interfaces_fini);
@@ -277,6 +290,9 @@ extern const MPT_STRUCT(type_traits) *mpt_type_traits(MPT_TYPE(type) type)
 	if (type < MPT_ENUM(_TypeCoreSize)) {
 		if (!core_types) {
 			_core_init();
+			if (!core_types) {
+				return 0;
+			}
 		}
 		return core_types[type].size ? &core_types[type] : 0;
 	}
@@ -284,6 +300,9 @@ extern const MPT_STRUCT(type_traits) *mpt_type_traits(MPT_TYPE(type) type)
 	if (MPT_type_isScalar(type)) {
 		if (!scalar_types) {
 			_scalar_init();
+			if (!scalar_types) {
+				return 0;
+			}
 		}
 		type -= MPT_ENUM(_TypeScalarBase);
 		return scalar_types[type].size ? &scalar_types[type] : 0;
@@ -292,6 +311,9 @@ extern const MPT_STRUCT(type_traits) *mpt_type_traits(MPT_TYPE(type) type)
 	if (MPT_type_isVector(type)) {
 		if (!iovec_types) {
 			_iovec_init();
+			if (!iovec_types) {
+				return 0;
+			}
 		}
 		type -= MPT_ENUM(_TypeVectorBase);
 		return iovec_types[type].size ? &iovec_types[type] : 0;
@@ -360,6 +382,11 @@ extern const MPT_STRUCT(named_traits) *mpt_interface_traits(MPT_TYPE(type) type)
 	}
 	if (!interface_types) {
 		_interfaces_init();
+		/* no table: next call retries setup */
+		if (!interface_types) {
+			errno = ENOMEM;
+			return 0;
+		}
 	}
 	pos = type - MPT_ENUM(_TypeInterfaceBase);
 	
@@ -697,6 +724,11 @@ extern const MPT_STRUCT(named_traits) *mpt_type_interface_add(const char *name)
 	
 	if (!interface_types) {
 		_interfaces_init();
+		/* no table: next call retries setup */
+		if (!interface_types) {
+			errno = ENOMEM;
+			return 0;
+		}
 	}
 	
 	if (name) {
